@@ -25,6 +25,8 @@ import (
 	"flag"
 	"fmt"
 	"io"
+	"mime"
+	"mime/multipart"
 	"net/http"
 	"os"
 	"runtime/debug"
@@ -44,6 +46,7 @@ import (
 	"github.com/wundergraph/graphql-go-tools/v2/pkg/astprinter"
 	"github.com/wundergraph/graphql-go-tools/v2/pkg/astvalidation"
 	"github.com/wundergraph/graphql-go-tools/v2/pkg/engine/datasource/graphql_datasource"
+	"github.com/wundergraph/graphql-go-tools/v2/pkg/engine/datasource/httpclient"
 	"github.com/buger/jsonparser"
 	"github.com/wundergraph/graphql-go-tools/v2/pkg/engine/plan"
 	"github.com/wundergraph/graphql-go-tools/v2/pkg/engine/resolve"
@@ -83,6 +86,8 @@ func baseOf(ty string) string {
 	return ty
 }
 
+var upTypes = []string{"Int", "String", "ID", "In", "LInt"}
+
 type fieldDef struct{ name, ty, dflt string }
 
 // input object types (mirrors GQLLiteral!InFieldTy / ObjKeyTy / FieldDefault)
@@ -99,7 +104,7 @@ var mFields = []fieldDef{{"a", "Int", ""}, {"b", "Int", ""}, {"c", "ID", ""}, {"
 
 func schemaSDL() string {
 	var b strings.Builder
-	b.WriteString("schema { query: Query }\nscalar Big\nenum E { A B }\n")
+	b.WriteString("schema { query: Query }\nscalar Big\nscalar Upload\nenum E { A B }\n")
 	for _, t := range []string{"In", "InD", "InD2"} {
 		fmt.Fprintf(&b, "input %s {", t)
 		for _, f := range objFields[t] {
@@ -117,6 +122,10 @@ func schemaSDL() string {
 			fmt.Fprintf(&b, " = %s", types[t].dflt)
 		}
 		b.WriteString("): String\n")
+	}
+	// upload lane: the same argument next to a file (multipart request path, Source.LoadWithFiles)
+	for _, t := range upTypes {
+		fmt.Fprintf(&b, "  u_%s(a: %s, file: Upload): String\n", t, types[t].gql)
 	}
 	b.WriteString("  f_M(")
 	for i, f := range mFields {
@@ -156,6 +165,9 @@ type Case struct {
 	// Comp adds a companion root field  zz: f_Int(a: $zz)  whose variable is none | absent | null | val:
 	// a second, independent variable in the same request (undefined-variable tracking is per request).
 	Comp string `json:"comp"`
+	// Up sends the request as a file upload: field u_<ty>(a: .., file: $file), variables.file = null, one file attached
+	// (multipart request to the subgraph, graphql_datasource Source.LoadWithFiles).
+	Up bool `json:"up"`
 }
 
 // V is the uniformly tagged value crossing Go -> TLC.
@@ -197,6 +209,7 @@ type Obs struct {
 	HasKey bool   `json:"haskey"` // the variable the argument refers to is a key of the variables object
 	HasArg bool   `json:"hasarg"` // the argument is present in the operation text
 	Val    V      `json:"val"`    // value of the argument evaluated under the variables
+	Multi  bool   `json:"multi"`  // the subgraph request was multipart/form-data (file upload path)
 	Comp   string `json:"comp"`   // state in which the companion variable $zz arrived: none | absent | null | val | other
 	Err    string `json:"err"`
 	Query  string `json:"query"`
@@ -296,8 +309,14 @@ func renderJSON(b *strings.Builder, e Expr) {
 func buildRequest(c Case) (query string, vars string) {
 	var q strings.Builder
 	comp := c.Comp != "" && c.Comp != "none"
-	if len(c.Vars) > 0 || comp {
+	if len(c.Vars) > 0 || comp || c.Up {
 		q.WriteString("query(")
+		if c.Up {
+			q.WriteString("$file: Upload")
+			if len(c.Vars) > 0 || comp {
+				q.WriteString(", ")
+			}
+		}
 		for i, v := range c.Vars {
 			if i > 0 {
 				q.WriteString(", ")
@@ -316,8 +335,20 @@ func buildRequest(c Case) (query string, vars string) {
 		}
 		q.WriteString(") ")
 	}
-	fmt.Fprintf(&q, "{ f_%s", c.Ty)
-	if c.Ty == "M" {
+	if c.Up {
+		fmt.Fprintf(&q, "{ u_%s(", c.Ty)
+		if c.Expr.K != "omit" {
+			q.WriteString("a: ")
+			renderExpr(&q, c.Expr)
+			q.WriteString(", ")
+		}
+		q.WriteString("file: $file)")
+	} else {
+		fmt.Fprintf(&q, "{ f_%s", c.Ty)
+	}
+	if c.Up {
+		// arguments already written
+	} else if c.Ty == "M" {
 		// the pseudo object's fields are the arguments of the field
 		if len(c.Expr.Items) > 0 {
 			q.WriteString("(")
@@ -343,11 +374,21 @@ func buildRequest(c Case) (query string, vars string) {
 	var j strings.Builder
 	j.WriteByte('{')
 	first := true
+	if c.Up {
+		j.WriteString(`"file":null`)
+		first = false
+	}
 	switch c.Comp {
 	case "null":
+		if !first {
+			j.WriteByte(',')
+		}
 		j.WriteString(`"zz":null`)
 		first = false
 	case "val":
+		if !first {
+			j.WriteByte(',')
+		}
 		j.WriteString(`"zz":7`)
 		first = false
 	}
@@ -720,7 +761,7 @@ func observe(query string, varsJSON []byte, ty string) (o Obs) {
 	var fld *gqlast.Field
 	for _, s := range op.SelectionSet {
 		// the companion field is aliased zz; gqlparser sets Alias = Name when there is no alias
-		if f, ok := s.(*gqlast.Field); ok && f.Name == "f_"+ty && f.Alias == f.Name {
+		if f, ok := s.(*gqlast.Field); ok && (f.Name == "f_"+ty || f.Name == "u_"+ty) && f.Alias == f.Name {
 			fld = f
 		}
 	}
@@ -799,11 +840,12 @@ type subgraph struct {
 	vars  []byte
 	raw   []byte
 	bad   string
+	multi bool
 }
 
 func (s *subgraph) reset() {
 	s.mu.Lock()
-	s.calls, s.query, s.vars, s.raw, s.bad = 0, "", nil, nil, ""
+	s.calls, s.query, s.vars, s.raw, s.bad, s.multi = 0, "", nil, nil, "", false
 	s.mu.Unlock()
 }
 
@@ -813,6 +855,22 @@ func (s *subgraph) RoundTrip(r *http.Request) (*http.Response, error) {
 	s.mu.Lock()
 	defer s.mu.Unlock()
 	s.calls++
+	if mt, params, err := mime.ParseMediaType(r.Header.Get("Content-Type")); err == nil && mt == "multipart/form-data" {
+		// GraphQL multipart request: the JSON envelope is the form field "operations"
+		s.multi = true
+		var ops []byte
+		mr := multipart.NewReader(bytes.NewReader(body), params["boundary"])
+		for {
+			part, err := mr.NextPart()
+			if err != nil {
+				break
+			}
+			if part.FormName() == "operations" {
+				ops, _ = io.ReadAll(part)
+			}
+		}
+		body = ops
+	}
 	s.raw = body
 	resp := `{"data":null}`
 	var env struct {
@@ -890,6 +948,11 @@ func newWorker(ctx context.Context) (*worker, error) {
 		fieldNames = append(fieldNames, "f_"+t)
 		fieldCfg = append(fieldCfg, plan.FieldConfiguration{TypeName: "Query", FieldName: "f_" + t, Path: []string{"f_" + t},
 			Arguments: []plan.ArgumentConfiguration{{Name: "a", SourceType: plan.FieldArgumentSource}}})
+	}
+	for _, t := range upTypes {
+		fieldNames = append(fieldNames, "u_"+t)
+		fieldCfg = append(fieldCfg, plan.FieldConfiguration{TypeName: "Query", FieldName: "u_" + t, Path: []string{"u_" + t},
+			Arguments: []plan.ArgumentConfiguration{{Name: "a", SourceType: plan.FieldArgumentSource}, {Name: "file", SourceType: plan.FieldArgumentSource}}})
 	}
 	fieldNames = append(fieldNames, "f_M")
 	var margs []plan.ArgumentConfiguration
@@ -972,7 +1035,7 @@ func (e errStringer) String() string {
 	return e.e.Error()
 }
 
-func (w *worker) execute(query, vars, ty string) (o Obs, panicMsg string) {
+func (w *worker) execute(query, vars, ty string, up bool) (o Obs, panicMsg string) {
 	w.sub.reset()
 	req := graphql.Request{Query: query}
 	if vars != "" {
@@ -986,13 +1049,29 @@ func (w *worker) execute(query, vars, ty string) (o Obs, panicMsg string) {
 				panicMsg = fmt.Sprintf("%v\n%s", r, debug.Stack())
 			}
 		}()
-		err = w.eng.Execute(context.Background(), &req, &rw)
+		var opts []engine.ExecutionOptions
+		if up {
+			// DoMultipartForm removes the file after the request: a fresh one per execution
+			f, ferr := os.CreateTemp("", "verif-c15-upload-*.txt")
+			if ferr != nil {
+				err = ferr
+				return
+			}
+			_, _ = f.WriteString("file content")
+			_ = f.Close()
+			defer os.Remove(f.Name())
+			path := f.Name()
+			opts = append(opts, engine.VerifWithResolveContext(func(rc *resolve.Context) {
+				rc.Files = []*httpclient.FileUpload{httpclient.NewFileUpload(path, "upload.txt", "variables.file")}
+			}))
+		}
+		err = w.eng.Execute(context.Background(), &req, &rw, opts...)
 	}()
 	if panicMsg != "" {
 		return Obs{Err: "panic", Val: mkErr("panic")}, panicMsg
 	}
 	w.sub.mu.Lock()
-	calls, q, v, raw, bad := w.sub.calls, w.sub.query, append([]byte(nil), w.sub.vars...), string(w.sub.raw), w.sub.bad
+	calls, q, v, raw, bad, multi := w.sub.calls, w.sub.query, append([]byte(nil), w.sub.vars...), string(w.sub.raw), w.sub.bad, w.sub.multi
 	w.sub.mu.Unlock()
 	if calls == 0 {
 		msg := "subgraph not called"
@@ -1009,7 +1088,9 @@ func (w *worker) execute(query, vars, ty string) (o Obs, panicMsg string) {
 	if calls > 1 {
 		return Obs{OK: true, Valid: true, Err: "subgraph called more than once", Val: mkErr("multiple calls"), Query: raw}, ""
 	}
-	return observe(q, v, ty), ""
+	o = observe(q, v, ty)
+	o.Multi = multi
+	return o, ""
 }
 
 func (w *worker) run(c Case) Line {
@@ -1021,7 +1102,7 @@ func (w *worker) run(c Case) Line {
 		l.Panic = "normalization: " + l.Norm.Err
 	}
 	var p string
-	l.Sub, p = w.execute(q, v, c.Ty)
+	l.Sub, p = w.execute(q, v, c.Ty, c.Up)
 	if p != "" {
 		l.Panic = p
 	}
@@ -1029,7 +1110,7 @@ func (w *worker) run(c Case) Line {
 	if c.Tw.K != "omit" {
 		l.HasTw = true
 		tq, tv := buildTwin(c)
-		l.TwSub, p = w.execute(tq, tv, c.Ty)
+		l.TwSub, p = w.execute(tq, tv, c.Ty, false)
 		if p != "" {
 			l.Panic = p
 		}
